@@ -197,6 +197,7 @@ def checkCase (c : Case) : CaseResult := Id.run do
     -- known) one can never hide it
     let recognised (m : String) : Bool :=
       (m.splitOn "cause=stopped-after-cost-neutral-pass-with-splittable-constraint").length > 1 ||
+      (m.splitOn "cause=stopped-after-small-cost-change-with-splittable-constraint").length > 1 ||
       (m.splitOn "cause=lm-within-solver-tolerance").length > 1
     let pick := (fails.find? (fun m => !recognised m)).getD fails[0]!
     let more := if fails.size > 1 then s!" (+{fails.size - 1} more failing comparisons in this case)" else ""
